@@ -2238,7 +2238,7 @@ class Parameters:
                 )
 
             pobj = objects.get(name)
-            if (getattr(pobj, 'check_on_set', True) is False and pobj.per_instance
+            if (not getattr(pobj, 'check_on_set', True) and pobj.per_instance
                     and not getattr(self_.cls._param__private, 'disable_instance_params', False)
                     and name not in self._param__private.params):
                 # a Selector that adds unknown values to its objects: to those
